@@ -276,6 +276,9 @@ pub enum Points {
     /// Every k in 0..size.
     All,
     One(usize),
+    /// For structures too large to enumerate: every k within 24 bytes of a multiple of 4 KiB, 64 KiB or
+    /// 1 MiB or of either end, plus an even spread of 96 further points.
+    Sample,
 }
 
 #[derive(Clone, Debug, Serialize, Deserialize)]
@@ -379,7 +382,7 @@ impl StreamFault {
             Err(p) => return out.fail(Violation::new(prop, "harness", "serialize", p)),
         };
         let n = bytes.len();
-        let ks: Vec<usize> = match self.points { Points::All => (0..n).collect(), Points::One(k) => if k < n { vec![k] } else { vec![] } };
+        let ks: Vec<usize> = match self.points { Points::All => (0..n).collect(), Points::One(k) => if k < n { vec![k] } else { vec![] }, Points::Sample => sample_points_of(n) };
         for k in ks {
             if let Some(v) = self.one(prop, val.as_ref(), &bytes, k, &mut out.stats) {
                 let mut v = v;
@@ -395,11 +398,24 @@ impl StreamFault {
         let val = catch(|| self.payload.build()).ok()?;
         let bytes = catch(|| val.serialize_vec()).ok()?.ok()?;
         let mut stats = Stats::default();
-        (0..bytes.len()).find(|k| self.one(prop, val.as_ref(), &bytes, *k, &mut stats).is_some())
+        let ks: Vec<usize> = if self.points == Points::Sample { sample_points_of(bytes.len()) } else { (0..bytes.len()).collect() };
+        ks.into_iter().find(|k| self.one(prop, val.as_ref(), &bytes, *k, &mut stats).is_some())
+    }
+
+    /// One large structure (around 2^16 / 2^17 elements) with sampled fault points and coarse chunking.
+    pub fn generate_large(rng: &mut Rng) -> StreamFault {
+        let base = *rng.pick(&[1usize << 16, 1 << 16, 1 << 17]);
+        let words = match rng.below(4) { 0 => base - 1, 1 => base, 2 => base + 1, _ => base + rng.range_usize(2, 3000) };
+        let payload = gen_large_payload(rng, words);
+        let clause = if payload.opt > 0 && rng.bool() { *rng.pick(&[FaultClause::SkipTrunc, FaultClause::SkipErr]) } else { *rng.pick(&[FaultClause::LoadTrunc, FaultClause::LoadTrunc, FaultClause::LoadErr, FaultClause::SerErr, FaultClause::SerZero]) };
+        let chunk = match rng.below(4) { 0 => Chunk::Unbounded, 1 => Chunk::Max(1 << 16), 2 => Chunk::Align(1 << 16), _ => Chunk::Seq(vec![100_000, 4096, 1 << 20, 65_537]) };
+        let kind = match clause { FaultClause::LoadErr | FaultClause::SkipErr => *rng.pick(&READ_KINDS), _ => *rng.pick(&WRITE_KINDS) };
+        StreamFault { payload, clause, chunk, eintr: Vec::new(), kind, points: Points::Sample }
     }
 
     pub fn simpler(&self) -> Vec<StreamFault> {
         let mut out = Vec::new();
+        if self.points == Points::Sample { let mut s = self.clone(); s.points = Points::All; let _ = s; }
         if let Points::One(k) = self.points {
             // Keep one fault point; try simpler payloads with the fault at the same / a smaller position.
             for p in self.payload.simpler() {
@@ -418,6 +434,24 @@ impl StreamFault {
         if !self.eintr.is_empty() { let mut s = self.clone(); s.eintr.clear(); out.push(s); }
         out
     }
+}
+
+fn sample_points_of(n: usize) -> Vec<usize> {
+    fn around(ks: &mut Vec<usize>, c: usize, n: usize) {
+        for d in 0..=24usize { if c >= d && c - d < n { ks.push(c - d); } if c + d < n { ks.push(c + d); } }
+    }
+    let mut ks: Vec<usize> = Vec::new();
+    around(&mut ks, 0, n);
+    around(&mut ks, n.saturating_sub(1), n);
+    for unit in [4096usize, 1 << 16, 1 << 20] {
+        let mut c = unit;
+        while c < n + unit && ks.len() < 6000 { around(&mut ks, c, n); c += unit; }
+    }
+    for j in 0..96usize { ks.push(j * n / 96); }
+    ks.retain(|k| *k < n);
+    ks.sort_unstable();
+    ks.dedup();
+    ks
 }
 
 //-----------------------------------------------------------------------------
@@ -474,9 +508,10 @@ fn answers(bv: &BitVector, mask: u8) -> Vec<u64> {
 
 impl Supports {
     pub fn generate(rng: &mut Rng, max_bits: usize) -> Supports {
-        let len = match rng.below(8) { 0 => 0, 1 => rng.range_usize(1, 70), 2 => rng.range_usize(4000, 4200).min(max_bits), 3 => rng.range_usize(8100, 8300).min(max_bits), _ => crate::content::gen_len(rng, max_bits) };
+        let len = if rng.chance(1, 60) { rng.range_usize(83_521, 200_000) } else { match rng.below(8) { 0 => 0, 1 => rng.range_usize(1, 70), 2 => rng.range_usize(4000, 4200).min(max_bits), 3 => rng.range_usize(8100, 8300).min(max_bits), _ => crate::content::gen_len(rng, max_bits) } };
         let mut c = Content::generate(rng, len);
         if rng.chance(1, 3) { c.pat = crate::content::Pat::Density(*rng.pick(&[0u16, 3, 30, 500, 970, 997, 1000])); }
+        if len > 80_000 && rng.chance(1, 2) { c.pat = *rng.pick(&[crate::content::Pat::Single, crate::content::Pat::AllButOne, crate::content::Pat::Density(1), crate::content::Pat::Ends]); }
         let n = rng.range_usize(1, 10);
         let all = [SupOp::EnableRank, SupOp::EnableSelect, SupOp::EnableSelectZero, SupOp::EnablePredSucc, SupOp::RoundTrip, SupOp::RoundTrip, SupOp::Clone];
         let ops = (0..n).map(|_| *rng.pick(&all)).collect();
